@@ -5,7 +5,8 @@ set -u
 PATCH=$(readlink -f "$1"); shift
 WT=$(mktemp -d /tmp/asl_try.XXXXXX)
 rmdir "$WT"
-git -C /repo worktree add -q --detach "$WT" HEAD || exit 3
+for attempt in 1 2 3 4 5 6; do git -C /repo worktree add -q --detach "$WT" HEAD 2>/dev/null && break; sleep 0.$((RANDOM % 9 + 1)); done
+[ -d "$WT" ] || exit 3
 trap 'git -C /repo worktree remove --force "$WT" >/dev/null 2>&1; rm -rf "$WT"' EXIT
 if ! git -C "$WT" apply "$PATCH"; then echo "PATCH DOES NOT APPLY"; exit 3; fi
 ASL_REPO="$WT" ASL_EVIDENCE_DIR="$WT/.evidence" "$@" 2>&1 | sed "s#$WT#/repo#g"
